@@ -1194,7 +1194,9 @@ def generate(src):
                 halves.append(idx)
         if len(divs) != 1:
             raise TranslateError("integrate: weights divided %d times" % len(divs))
-        mul = [e for e in it.events if e[0] in ("aug", "rebind") and e[1] != wname]
+        mul = [e for e in it.events if e[0] in ("aug", "rebind") and e[1] != wname and
+               isinstance(e[2][2], ast.Call) and
+               it.name_of(e[2][2].func) == "np.expand_dims"]
         if len(mul) != 1 or mul[0][2][1] != "Mult" or mul[0][2][0] is not None:
             raise TranslateError("integrate: integrand *= ... expected once per axis")
         node = mul[0][2][2]
